@@ -104,6 +104,7 @@ func WorkerMain(args []string) int {
 		plan.Setup(ctx)
 	}
 	buf := make([]byte, 0, 32)
+	slowest, slowestK := time.Duration(0), -1
 	runCase := func(k int) {
 		ctx.K = k
 		buf = append(buf[:0], 'B', ' ')
@@ -123,6 +124,9 @@ func WorkerMain(args []string) int {
 			plan.Run(ctx, k)
 		}()
 		atomic.StoreInt64(&curCase, -1)
+		if d := time.Since(time.Unix(0, atomic.LoadInt64(&curStart))); d > slowest {
+			slowest, slowestK = d, k
+		}
 		buf[0] = 'E'
 		logf.Write(buf)
 		ctx.sum.Evaluations++
@@ -140,6 +144,13 @@ func WorkerMain(args []string) int {
 	if plan.Finish != nil {
 		ctx.K = -1
 		plan.Finish(ctx)
+	}
+	if slowestK >= 0 {
+		// observed, not judged: how far the slowest case of this shard was from the per-case limit
+		ctx.HookMax("max_case_ms", uint64(slowest/time.Millisecond))
+		if slowest > time.Duration(limit)*time.Second/4 {
+			ctx.Note("slow-cases", fmt.Sprintf("case %d took %s (limit %ds)", slowestK, slowest.Round(time.Millisecond), limit))
+		}
 	}
 
 	b, err := json.Marshal(&ctx.sum)
